@@ -26,7 +26,6 @@ R = {
     'exchange::build_ex_pair#*unwrap': 'gen_keypair / Exchange::new fail only if [d]G is off the curve, which cannot happen for a sampled d',
     # ---- SM4 modes
     '<impl Sm4CipherMode>::cbc_decrypt#*index': 'out has exactly len(data) bytes (one 16-byte block per input block, len % 16 == 0 and len >= 16 guarded): out[len - 1] exists',
-    '<impl Sm4CipherMode>::cbc_decrypt#*overflow': 'len - pad with 1 <= pad <= 16 <= len (G-PAD and L-CBC-LEN guards of C07)',
     '<impl Sm4CipherMode>::cbc_encrypt#*precond': 'vec_buf is a 16-byte Vec initialised from the 16-byte IV and then replaced by the 16-byte output of Sm4Cipher::encrypt',
     # ---- SM9
     'fields::fp12::<impl fields::fp12::Fp12>::pow#*panic': 'assert!(e <= N-1): callers pass h range-checked in verify_sign (C09 G-SM9V-RANGE), sampler outputs in [1, N-2] (C14), the constants 6t+5, 6t^2+1, 9, or the caller\'s own ephemeral scalar (exch_step_2a)',
